@@ -813,6 +813,244 @@ Qed.
 Definition str_of (s : stack) : text :=
   List.concat (fmt_stack_str {| M_Format.ascii := false; show_ctx := true; show_hidden := false |} s).
 
+(* ------------------------------------------------------------------ single newline-terminated lines *)
+Definition nonl (t : text) : bool := forallb (fun c => negb (N.eqb c 10)) t.
+(* ends with "\n" and contains no other "\n" *)
+Definition oneline (t : text) : bool :=
+  match rev t with c :: r => N.eqb c 10 && nonl r | [] => false end.
+Definition single_lines (ls : list text) : bool := forallb oneline ls.
+
+Lemma nonl_app x y : nonl (x ++ y) = nonl x && nonl y.
+Proof. apply forallb_app. Qed.
+Lemma nonl_rev x : nonl (rev x) = nonl x.
+Proof.
+  induction x as [|c x IH]; simpl; auto. rewrite nonl_app, IH. simpl. rewrite andb_true_r. apply andb_comm.
+Qed.
+Lemma oneline_app x y : nonl x = true -> oneline y = true -> oneline (x ++ y) = true.
+Proof.
+  unfold oneline. rewrite rev_app_distr. destruct (rev y) as [|c r]; [discriminate|]. simpl.
+  intros Hx H. apply andb_true_iff in H as [H1 H2]. rewrite H1, nonl_app, H2, nonl_rev, Hx. reflexivity.
+Qed.
+Lemma oneline_nl x : nonl x = true -> oneline (x ++ nl) = true.
+Proof. intros H. apply oneline_app; auto. Qed.
+
+Lemma nonl_uint u : nonl (uint_text u) = true.
+Proof. induction u; simpl; auto. Qed.
+Lemma nonl_dec n : nonl (dec n) = true.
+Proof. apply nonl_uint. Qed.
+
+(* the pieces of str.splitlines() contain no "\n" *)
+Lemma splitn_nonl s : forall cur, nonl cur = true -> Forall (fun p => nonl p = true) (splitn cur s).
+Proof.
+  assert (R : forall cur, nonl cur = true -> nonl (rev cur) = true) by (intros; rewrite nonl_rev; auto).
+  induction s as [s IH] using (well_founded_induction (Wf_nat.well_founded_ltof _ (@List.length N))).
+  intros cur Hc. destruct s as [|c r]; simpl.
+  - destruct cur; repeat constructor. apply (R (n :: cur) Hc).
+  - destruct (N.eqb c 13) eqn:E13.
+    + destruct r as [|c2 r']; [repeat constructor; auto|].
+      destruct (N.eqb c2 10); constructor; auto; apply IH; auto; unfold Wf_nat.ltof; simpl; lia.
+    + destruct (is_sep c) eqn:Es.
+      * constructor; auto. apply IH; auto. unfold Wf_nat.ltof; simpl; lia.
+      * apply IH; [unfold Wf_nat.ltof; simpl; lia|]. simpl. rewrite Hc, andb_true_r.
+        destruct (N.eqb c 10) eqn:E10; auto. apply N.eqb_eq in E10. subst c. discriminate Es.
+Qed.
+
+Lemma err_sublines_oneline raw : Forall (fun t => oneline t = true) (err_sublines raw).
+Proof.
+  unfold err_sublines. induction raw as [|l raw IH]; simpl; [constructor|].
+  apply Forall_app; split; auto. destruct (text_eqb l tb_header); [constructor|].
+  apply Forall_forall. intros x Hx. apply in_map_iff in Hx as [p [<- Hp]]. apply oneline_nl.
+  pose proof (splitn_nonl l [] eq_refl) as H. eapply Forall_forall in H; eauto.
+Qed.
+
+(* negation of F12's signature: no payload other than the error text contains a newline *)
+Definition onl (o : option text) : bool := match o with Some t => nonl t | None => true end.
+Fixpoint clean_stack (s : stack) : bool :=
+  let 'Stk r fs lf _ := s in onl r && onl lf && forallb clean_frame fs
+with clean_frame (f : frame) : bool :=
+  let 'Frm fn cls md file _ src _ _ _ cs := f in
+  nonl fn && onl cls && onl md && nonl file && nonl src && forallb clean_ctx cs
+with clean_ctx (c : context) : bool :=
+  let 'Ctx ty _ _ vn _ ds csrc _ _ inn ks _ := c in
+  onl ty && onl vn && onl ds && nonl csrc
+  && (match inn with Some s => clean_stack s | None => true end)
+  && forallb clean_child ks
+with clean_child (k : child) : bool :=
+  match k with KCtx c => clean_ctx c | KStk s => clean_stack s end.
+
+Ltac split_and :=
+  repeat match goal with
+         | H : _ && _ = true |- _ => apply andb_true_iff in H; destruct H
+         end.
+
+Lemma header_oneline r : onl r = true -> oneline (header_text r) = true.
+Proof.
+  destruct r as [r|]; intros H; [|reflexivity]. simpl in H.
+  unfold header_text. apply oneline_app; [reflexivity|]. apply oneline_app; [exact H|]. apply oneline_nl. reflexivity.
+Qed.
+
+Lemma frame_header_oneline f : clean_frame f = true -> oneline (frame_header f) = true.
+Proof.
+  destruct f as [fn cls md file ln src loc h hl cs]. intros H. simpl in H. split_and.
+  unfold frame_header.
+  apply oneline_app.
+  { destruct cls as [c|]; auto. simpl in * |-. rewrite !nonl_app.
+    repeat (apply andb_true_iff; split); auto. }
+  apply oneline_app; [reflexivity|]. apply oneline_app.
+  { destruct md as [[|x m]|]; simpl in *; auto. }
+  apply oneline_app; [reflexivity|]. apply oneline_app; [auto|]. apply oneline_app; [reflexivity|].
+  apply oneline_nl. apply nonl_dec.
+Qed.
+
+Lemma join_sp_nonl l : forallb nonl l = true -> nonl (join_sp l) = true.
+Proof.
+  induction l as [|x l IH]; simpl; auto. intros H. apply andb_true_iff in H as [H1 H2].
+  destruct l as [|y l]; auto. rewrite !nonl_app, H1, IH by auto. reflexivity.
+Qed.
+
+Lemma name_and_type_nonl c : clean_ctx c = true -> nonl (name_and_type c) = true.
+Proof.
+  destruct c as [ty asy ex vn sl ds csrc cr orp inn ks hh]. simpl. intros H. split_and.
+  destruct ty as [t|]; simpl in *.
+  - rewrite !nonl_app. replace (nonl t) with true by auto.
+    destruct vn as [[|x v]|]; simpl in *; auto. replace (nonl (x :: v)) with true by auto. reflexivity.
+  - destruct vn; auto.
+Qed.
+
+Lemma ctx_line_oneline hp sl c : clean_ctx c = true -> oneline (ctx_line hp sl c) = true.
+Proof.
+  intros Hc. pose proof (name_and_type_nonl c Hc) as Hi.
+  destruct c as [ty asy ex vn sl0 ds csrc cr orp inn ks hh]. unfold ctx_line.
+  set (info := name_and_type _) in *. simpl in Hc. split_and.
+  set (lt0 := match sl0 with Some _ => if hp then csrc else [] | None => [] end).
+  assert (H0 : nonl lt0 = true) by (unfold lt0; destruct sl0, hp; auto).
+  set (lt := if nonempty lt0 then lt0 else _).
+  assert (Hl : nonl lt = true).
+  { unfold lt. destruct (nonempty lt0); auto. destruct ds as [[|x d]|]; simpl in *; auto; destruct asy; reflexivity. }
+  set (parts := _ ++ _).
+  assert (Hp : forallb nonl parts = true).
+  { unfold parts. rewrite forallb_app. destruct (nonempty info); simpl; rewrite ?Hi; simpl;
+      destruct sl0; auto; destruct sl; simpl; auto; rewrite !nonl_app, nonl_dec; reflexivity. }
+  apply oneline_nl. destruct (nonempty parts); auto. rewrite !nonl_app, Hl, join_sp_nonl by auto. reflexivity.
+Qed.
+
+Section OneLine.
+  Variable o : fopts.
+  Notation OL := (fun l : sline => oneline (snd l) = true).
+  Notation B := (fmt_body_sl o).
+  Notation Fm := (fmt_frame_sl o).
+  Notation Cx := (fmt_ctx_sl o).
+  Notation KL := (fmt_kids sline sl_lit sl_add sl_is_blank (Cx false false) B).
+
+  Lemma OL_pref A g ls : Forall OL ls -> Forall OL (pref A g ls).
+  Proof.
+    intros H. destruct ls as [|l0 r]; simpl; [constructor|]. inversion H; subst. constructor; auto.
+    apply Forall_forall. intros x Hx. apply in_map_iff in Hx as [l [<- Hl]]. simpl. eapply Forall_forall in H3; eauto.
+  Qed.
+
+  Definition Ls (s : stack) : Prop := clean_stack s = true -> Forall OL (B s).
+  Definition Lf (f : frame) : Prop := clean_frame f = true -> Forall OL (Fm f).
+  Definition Lc (c : context) : Prop := clean_ctx c = true -> forall hp sl, Forall OL (Cx hp sl c).
+  Definition Lk (k : child) : Prop := match k with KCtx c => Lc c | KStk s => Ls s end.
+
+  Lemma forallb_Forall2 {X} (p : X -> bool) (P : X -> Prop) xs :
+    Forall (fun x => p x = true -> P x) xs -> forallb p xs = true -> Forall P xs.
+  Proof.
+    induction 1; simpl; intros H1; constructor; apply andb_true_iff in H1 as [? ?]; auto.
+  Qed.
+
+  Lemma Forall_flat_map_in {X Y} (P : Y -> Prop) (F : X -> list Y) xs :
+    (forall x, In x xs -> Forall P (F x)) -> Forall P (flat_map F xs).
+  Proof.
+    induction xs as [|x xs IH]; simpl; intros H; [constructor|].
+    apply Forall_app; split; [apply H; auto | apply IH; intros; apply H; auto].
+  Qed.
+
+  Lemma ol_stack r fs lf er : Forall Lf fs -> Ls (Stk r fs lf er).
+  Proof.
+    intros HF Hc. simpl in Hc. split_and. rewrite B_eq.
+    pose proof (forallb_Forall2 _ _ _ HF H0) as HF'.
+    apply Forall_app; split; [|apply Forall_app; split].
+    - apply Forall_flat_map_in. intros f Hin. destruct (f_hide f && negb (show_hidden o)); [constructor|].
+      rewrite prefix_block_pref. apply OL_pref. eapply Forall_forall in HF'; eauto.
+    - destruct lf as [t|]; simpl; repeat constructor. simpl. apply oneline_nl. auto.
+    - destruct er as [raw|]; simpl; [|constructor]. constructor; [reflexivity|].
+      apply Forall_forall. intros x Hx. apply in_map_iff in Hx as [p [<- Hp]]. simpl.
+      pose proof (err_sublines_oneline raw) as H2. eapply Forall_forall in H2; eauto.
+  Qed.
+
+  Lemma ol_frame fn cls md file ln src loc h hl cs :
+    Forall Lc cs -> Lf (Frm fn cls md file ln src loc h hl cs).
+  Proof.
+    intros HC Hc. set (f := Frm fn cls md file ln src loc h hl cs) in *.
+    pose proof (frame_header_oneline f Hc) as Hh. rewrite Fm_eq.
+    simpl in Hc. split_and.
+    pose proof (forallb_Forall2 _ _ _ HC H0) as HC'.
+    constructor; [exact Hh|]. apply Forall_app; split.
+    - destruct (show_ctx o); [|constructor]. apply Forall_flat_map_in. intros c Hin.
+      rewrite prefix_ctx_pref. apply OL_pref. eapply Forall_forall in HC'; eauto.
+    - unfold code_lines. destruct (last_exiting (f_ctxs f)); [constructor|].
+      destruct (nonempty (frame_linetext f)) eqn:E; repeat constructor. simpl. apply oneline_nl.
+      unfold f, frame_linetext. destruct (N.eqb ln 0 || hl); auto.
+  Qed.
+
+  Lemma ol_kids ks : Forall Lk ks -> forallb clean_child ks = true -> forall db, Forall OL (KL db ks).
+  Proof.
+    induction 1 as [|k ks Hk _ IH]; intros Hc db; simpl; [constructor|].
+    simpl in Hc. apply andb_true_iff in Hc as [Hc1 Hc2].
+    apply Forall_app; split; [|apply Forall_app; split; [|apply IH; auto]].
+    - destruct k as [c|s]; simpl; [constructor|]. destruct (nonempty (s_frames s)); simpl; [|constructor].
+      destruct db; repeat constructor.
+    - rewrite prefix_block_pref. apply OL_pref. destruct k as [c|s]; simpl.
+      + apply Hk; auto.
+      + assert (Hr : oneline (child_root_line (s_root s)) = true).
+        { destruct s as [r fs lf er]. simpl in *. split_and. destruct r as [r|]; simpl in *; [apply oneline_nl; auto|reflexivity]. }
+        destruct (nonempty (s_frames s)); simpl.
+        * constructor; [exact Hr|]. apply Forall_app; split; [apply Hk; auto | repeat constructor].
+        * constructor; [exact Hr|]. apply Hk; auto.
+  Qed.
+
+  Lemma ol_ctx ty asy ex vn sl0 ds cs cr orp inn ks h :
+    opt_P Ls inn -> Forall Lk ks -> Lc (Ctx ty asy ex vn sl0 ds cs cr orp inn ks h).
+  Proof.
+    intros Hi Hk Hc hp sl. set (c := Ctx ty asy ex vn sl0 ds cs cr orp inn ks h) in *.
+    pose proof (ctx_line_oneline hp sl c Hc) as Hl. rewrite Cx_eq.
+    destruct (c_hide c && negb (show_hidden o)); [constructor|].
+    simpl in Hc. split_and. simpl. constructor; [exact Hl|]. apply Forall_app; split.
+    - destruct inn; [apply Hi; auto | constructor].
+    - apply ol_kids; auto.
+  Qed.
+
+  Lemma ol_all : (forall s, Ls s) /\ (forall f, Lf f) /\ (forall c, Lc c) /\ (forall k, Lk k).
+  Proof.
+    apply tree_ind.
+    - apply ol_stack.
+    - apply ol_frame.
+    - intros. apply ol_ctx; auto.
+    - auto.
+    - auto.
+  Qed.
+
+  Lemma mstr_nonl asc m : nonl (mstr asc m) = true.
+  Proof. destruct asc, m; reflexivity. Qed.
+
+  Lemma render_oneline asc l : oneline (snd l) = true -> oneline (render asc l) = true.
+  Proof.
+    intros H. unfold render. apply oneline_app; auto.
+    induction (fst l) as [|m ms IH]; simpl; auto. rewrite nonl_app, mstr_nonl, IH. reflexivity.
+  Qed.
+
+  (* every element of format() ends with "\n" and contains no other "\n", whatever the error text *)
+  Theorem newline_terminated s : clean_stack s = true -> single_lines (fmt_stack_str o s) = true.
+  Proof.
+    intros Hc. rewrite str_is_render. unfold single_lines. apply forallb_forall. intros t Ht.
+    apply in_map_iff in Ht as [l [<- Hl]]. apply render_oneline.
+    destruct ol_all as [H _]. unfold fmt_stack_sl, fmt_stack in Hl. destruct Hl as [<-|Hl].
+    - simpl. apply header_oneline. destruct s as [r fs lf er]. simpl in *. split_and. auto.
+    - pose proof (H s Hc) as HB. eapply Forall_forall in HB; eauto.
+  Qed.
+End OneLine.
+
 (* F12: a payload with a newline gives a format() element that is not a single line *)
 Definition count_nl (t : text) : nat := List.length (filter (N.eqb 10) t).
 Definition single_lines (ls : list text) : bool :=
